@@ -458,6 +458,9 @@ pub enum Dev<F: PrimeField> {
     /// both roles: the k-th explicit constraint's constant is shifted by an amount derived from the
     /// constraint's own constant terms (sel 0: -(sum), 1: +(sum), 2: -(first), 3: +(last))
     KConstStruct { k: usize, sel: usize },
+    /// both roles: the constants of two explicit constraints shifted by +delta and -delta
+    /// (two violated rows whose residuals cancel if the rows ever share a weight)
+    KConstPair { k1: usize, k2: usize, delta: F },
     /// verifier only: coefficient `term` of the k-th explicit constraint shifted
     KCoef { k: usize, term: usize, delta: F },
     /// prover only (hook H1): gate assignment overwritten at the end of the gate's phase
@@ -827,6 +830,12 @@ pub fn exec_op<F: PrimeField>(op: Op, ctx: &mut Ctx<F>, side: &mut dyn Side<F>) 
             match &ctx.dev {
                 Dev::KConst { k, delta, both } if *k == ctx.kcount && (*both || is_v) => {
                     c += delta;
+                }
+                Dev::KConstPair { k1, delta, .. } if *k1 == ctx.kcount => {
+                    c += delta;
+                }
+                Dev::KConstPair { k2, delta, .. } if *k2 == ctx.kcount => {
+                    c -= delta;
                 }
                 Dev::KConstStruct { k, sel } if *k == ctx.kcount => {
                     let ones: Vec<F> = t.iter().filter(|x| matches!(x.0, Variable::One())).map(|x| x.1).collect();
